@@ -11,7 +11,12 @@ workload / queue part at statement level).
     projections only (verdicts), D_* compare the model's prediction with the real state (drift).
 
 A violation's signature is "<predicate> [<risk features seen in the program prefix>]" plus, for the
-rollback / discard predicates, " diff=<kinds of fields that were not restored>".
+rollback / discard predicates, " diff=<kinds of fields that were not restored>" (C13_RollbackObs / C13_DiscardObs:
+pods, nodes, workloads, queues; C13_ClaimsObs: the resource-claim part, also after an un-eviction).
+
+Scenario D (and the random generator's extra clusters) publish GPUs as DRA devices and give every pod a
+ResourceClaim: harness/cmd/stmt/dra.go builds the resource.k8s.io/v1 objects and projects what the session believes
+about claims (the pod's own record, the DRA manager's claim, the devices counted as in use) into every logged state.
 """
 import json
 import os
@@ -439,16 +444,20 @@ def validate(ctx, trace_path, prefixes, label, timeout=3000, heap="8g", per_sign
 # the stage
 # ------------------------------------------------------------------------------------------------
 RULE = ("programs = (a) every transition of the exhaustive TLC state graph of spec/Stmt.tla over the listed scenarios/bounds, "
-        "each as a labelled path from Init (maximal paths: all of them for the small-scope configurations Ax / Bx / Mx, a seeded sample covering as many program shapes as the tier's cap allows for the larger ones), and "
+        "each as a labelled path from Init (maximal paths: all of them for the small-scope configurations Ax / Bx / Dx / Mx, a seeded sample covering as many program shapes as the tier's cap allows for the larger ones; D* = GPUs as DRA devices, every pod with a ResourceClaim), and "
         "(b) seeded random well-formed programs from harness/cmd/stmt on random clusters (nested checkpoints, rollback, unevict, "
         "evict-then-pipeline of the same pod incl. to another GPU / node, gpu-fraction and gpu-memory pods on nodes whose devices "
-        "have different memory sizes, convert, several statements per session, commit with injected Bind/Evict failures); every program runs on a real Statement of a fresh real Session; non-trivial = the program "
+        "have different memory sizes, clusters with DRA devices and resource claims, convert, several statements per session, commit with injected Bind/Evict failures); every program runs on a real Statement of a fresh real Session; non-trivial = the program "
         "contains a Rollback, Discard or Commit; distinct by (scenario, operation sequence)")
 
 ASSUMPTIONS = [
     "GPU groups of a Pending pod are a caller scratch field (gpu_sharing assigns them before Allocate/Pipeline and nothing restores them): normalised to empty in the C13 comparison",
     "zero-valued entries of the per-GPU-group maps are equal to absent entries (group ids are fresh UUIDs in production)",
-    "sessions come from the real snapshot of a real SchedulerCache on fake clientsets; only Session.Cache is wrapped (recording, failure injection); resource claims / storage are not part of the scenarios",
+    "sessions come from the real snapshot of a real SchedulerCache on fake clientsets; only Session.Cache is wrapped (recording, failure injection); storage is not part of the scenarios",
+    "resource claims: scenario D and two extra random clusters per run publish the nodes' GPUs as DRA devices (ResourceSlice per node, one DeviceClass, resource.k8s.io/v1 in the fake clientset; the scheduler cache enables DynamicResourceAllocation itself from the fake discovery data, the dynamicresources plugin is part of the default configuration) and every pod there has ONE ResourceClaim for one device, template-generated (pod-level name != object name) or directly named; shared claims, several claims per pod, really terminating claim pods and claims on clusters with device-plugin GPUs are not covered",
+    "Stmt.tla treats a pod with a claim as a whole-GPU pod; the claim state itself (device, remembered allocation, reservedFor, devices in use) is judged on the real observations only (C13_ClaimsObs, C14_ClaimDevicesObs), nothing is normalised in that comparison",
+    "a pod with a claim is put back on its node (Unevict, Pipeline onto its own node) only when the node passes the fit check the actions run first: idle or releasing resources and a device the DRA manager counts as free (random generator; in scenario D the node always has one)",
+    "every program starts from the projection of the first session of its world: when a program leaves something behind in the shared scheduler cache (observed: DRA manager's in-use devices after a committed move of a claim pod to another node) the world is rebuilt (reported as worlds_rebuilt)",
     "Stmt.tla models the repaired behaviour for findings F14, F15, F21, F22 and for a Commit stopped by a failed bind (6091c57); the whole-device transfer heuristics of gpu_sharing_node_info.go (known finding F23) and the other oddities of statement.go are transcribed as they are",
     "un-evict is judged against the projection logged before the pod's latest Evict in the session; the phantom check compares the pods' virtual flags at Commit end with those at the statement's begin",
     "well-formed programs are those the actions can issue: Evict on Running pods, Allocate on Pending pods that fit idle resources, Pipeline on Pending or virtually evicted pods that fit idle+releasing resources, Convert on allocate-shaped statements, Rollback only to logged checkpoints",
